@@ -68,9 +68,9 @@ theorem property_lookup :
 the fillConf closure ALWAYS runs `config.DecodeAndValidate(confData, conf)` on the rest of the block — also when the rest
 is empty — and returns its error; `Hook` / `FactoryHook` hand that closure to `plugin.New` / `plugin.NewFactory` -/
 theorem plugin_fill :
-    Gen.Config.parseConfConds = ["tag.Debug", "err != nil", "PluginNameKey == strings.ToLower(key)", "!ok",
+    Gen.Config.parseConfConds = ["!ok", "PluginNameKey == strings.ToLower(key)", "err != nil",
       "len(names) == 0", "len(names) > 1"] ∧
-    Gen.Config.fillConfStmts = ["if tag.Debug", "err := config.DecodeAndValidate(confData, conf)", "if err != nil", "return err"] ∧
+    Gen.Config.fillConfStmts = ["err := config.DecodeAndValidate(confData, conf)", "if err != nil", "return err"] ∧
     Gen.Config.fillConfReturns = ["return err"] ∧
     Gen.Config.pluginHookCalls = ["Hook: plugin.New(t, name, fillConf)", "FactoryHook: plugin.NewFactory(t, name, fillConf)"] :=
   ⟨rfl, rfl, rfl, rfl⟩
@@ -90,6 +90,52 @@ theorem validator_table :
     Gen.Config.validationReturns = [("MinTimeValidation", "ok && min <= t"),
       ("EndpointStringValidation", "err == nil && (host == \"\" || govalidator.IsHost(host)) && govalidator.IsPort(port)")] :=
   ⟨rfl, rfl, rfl⟩
+
+/-- the constraints of the component configs (`validate` struct tags), pinned: a tag that is dropped, renamed (`valid:`)
+or weakened in the source breaks this lemma; harness/cmd/c17 carries the same table and still generates the failing input -/
+theorem validate_tags :
+    Gen.Config.validateTags = [
+      ("cli.expvarConfig", "Port", "required"),
+      ("components/guns/grpc.AnswLogConfig", "Filter", "omitempty,eq=all|eq=warning|eq=error"),
+      ("components/guns/grpc.GunConfig", "Target", "required"),
+      ("components/guns/grpc/scenario.AnswLogConfig", "Filter", "omitempty,eq=all|eq=warning|eq=error"),
+      ("components/guns/grpc/scenario.GunConfig", "Target", "required"),
+      ("components/guns/http.AnswLogConfig", "Filter", "omitempty,eq=all|eq=warning|eq=error"),
+      ("components/guns/http.AutoTagConfig", "URIElements", "min=1"),
+      ("components/guns/http.GunConfig", "Target", "endpoint,required"),
+      ("components/providers/grpc/grpcjson.Config", "Limit", "min=0"),
+      ("components/providers/grpc/grpcjson.Config", "Passes", "min=0"),
+      ("core/aggregator.EncoderAggregatorConfig", "Sink", "required"),
+      ("core/aggregator.ReporterConfig", "SampleQueueSize", "min=1"),
+      ("core/aggregator/netsample.PhoutConfig", "SampleQueueSize", "min=0"),
+      ("core/datasink.FileConfig", "Path", "required"),
+      ("core/datasource.FileConfig", "Path", "required"),
+      ("core/datasource.InlineConfig", "Data", "required"),
+      ("core/engine.Config", "Pools", "required,dive"),
+      ("core/engine.InstancePoolConfig", "Aggregator", "required"),
+      ("core/engine.InstancePoolConfig", "NewGun", "required"),
+      ("core/engine.InstancePoolConfig", "NewRPSSchedule", "required"),
+      ("core/engine.InstancePoolConfig", "Provider", "required"),
+      ("core/engine.InstancePoolConfig", "StartupSchedule", "required"),
+      ("core/provider.AmmoQueueConfig", "AmmoQueueSize", "min=1"),
+      ("core/provider.DecodeProviderConfig", "Limit", "min=0"),
+      ("core/provider.DecodeProviderConfig", "Passes", "min=0"),
+      ("core/provider.DecodeProviderConfig", "Source", "required"),
+      ("core/schedule.ConstConfig", "Duration", "min-time=1ms"),
+      ("core/schedule.ConstConfig", "Ops", "min=0"),
+      ("core/schedule.InstanceStepConfig", "From", "min=0"),
+      ("core/schedule.InstanceStepConfig", "Step", "min=1"),
+      ("core/schedule.InstanceStepConfig", "StepDuration", "min-time=1ms"),
+      ("core/schedule.InstanceStepConfig", "To", "min=0"),
+      ("core/schedule.LineConfig", "Duration", "min-time=1ms"),
+      ("core/schedule.LineConfig", "From", "min=0"),
+      ("core/schedule.LineConfig", "To", "min=0"),
+      ("core/schedule.OnceConfig", "Times", "min=1"),
+      ("core/schedule.StepConfig", "Duration", "min-time=1ms"),
+      ("core/schedule.StepConfig", "From", "min=0"),
+      ("core/schedule.StepConfig", "Step", "min=1"),
+      ("core/schedule.StepConfig", "To", "min=0"),
+      ("core/schedule.UnlimitedConfig", "Duration", "min-time=1ms")] := rfl
 
 /-- the grammar `scan` models and the condition under which the resolved text is cast -/
 theorem tag_grammar :
